@@ -204,12 +204,58 @@ func runImportBulk(t *testing.T, rc *RunCtx) {
 	}
 	if missing > 0 {
 		rc.Violate("C10", "import-dropped-protection", fmt.Sprintf("an import of %d keys reported success but %d of them are not covered afterwards, e.g. %s", n, missing, example), 0)
+		return
+	}
+	// Second file, into the database that now holds all those records: the same validators (every k-th of them) with
+	// lower values throughout.  Nothing recorded may go down.
+	step := 1 + ch.Pick(7, 0)
+	var sb2 strings.Builder
+	fmt.Fprintf(&sb2, `{"metadata":{"interchange_format_version":"5","genesis_validators_root":%q},"data":[`, genesisRoot)
+	m := 0
+	for i := 0; i < n; i += step {
+		key := append(h32("bulk key", rc.Seed, i), h32("bulk key tail", rc.Seed, i)[:16]...)
+		if m > 0 {
+			sb2.WriteByte(',')
+		}
+		m++
+		fmt.Fprintf(&sb2, `{"pubkey":"0x%s","signed_blocks":[{"slot":"0"}],"signed_attestations":[{"source_epoch":"0","target_epoch":"0"}]}`, hex.EncodeToString(key))
+	}
+	sb2.WriteString("]}")
+	if err := os.WriteFile(path, []byte(sb2.String()), 0o600); err != nil {
+		t.Fatalf("write: %v", err)
+	}
+	code, _, _ = dirkCLI(t, dir, nil, "--import-slashing-protection", "--genesis-validators-root="+genesisRoot, "--slashing-protection-file="+path)
+	rc.Stats.Inc("bulk_imports_over_a_large_database", 1)
+	after2, c3, m3 := cliExport(t, pop, dir)
+	if c3 != 0 {
+		rc.Violate("C10", "store-unusable-after-import", m3, 1)
+		return
+	}
+	lowered := 0
+	for k, r := range want {
+		got, ok := after2[k]
+		if !ok {
+			got = NoWatermark
+		}
+		if got.Slot < r.slot || got.Src < r.src || got.Tgt < r.tgt {
+			lowered++
+			if example == "" {
+				example = fmt.Sprintf("key %s: was slot %d, attestation %d>%d; now %v", k, r.slot, r.src, r.tgt, got)
+			}
+		}
+	}
+	if lowered > 0 {
+		rc.Violate("C10", "import-lowered-a-record", fmt.Sprintf("a second import (exit %d) naming %d of the %d validators of the database with lower values lowered %d records, e.g. %s", code, m, n, lowered, example), 1)
 	}
 }
 
 func runImport(t *testing.T, rc *RunCtx) {
 	if rc.Param("mode", "") == "bulk" {
 		runImportBulk(t, rc)
+		return
+	}
+	if rc.Param("mode", "") == "daemon" {
+		runDaemonInterchange(t, rc, "C10")
 		return
 	}
 	InitBLS()
@@ -524,6 +570,10 @@ var reQuotedNumber = regexp.MustCompile(`"(slot|source_epoch|target_epoch)":"([0
 
 // runExport is the body of C11.
 func runExport(t *testing.T, rc *RunCtx) {
+	if rc.Param("mode", "") == "daemon" {
+		runDaemonInterchange(t, rc, "C11")
+		return
+	}
 	InitBLS()
 	ch := rc.Ch
 	pop := StdPopulation(t)
